@@ -75,6 +75,13 @@ func (propC04) Gen(seed uint64, tier string, idx int) *Plan {
 	p.Stack.Balancer = bal
 	p.Stack.ConnTimeout = 2 * time.Second
 	p.Stack.ReadTimeout = 3 * time.Second
+	// one run in seven keeps the health checker running: its 30 s tick (29 s after T0) lands while the second
+	// main request is still working through its candidates, and endpoints of kind "refuse" go down only
+	// after that tick has found them healthy
+	tickVariant := r.Chance(140)
+	if tickVariant {
+		p.Stack.HealthLoop = true
+	}
 	histEp := r.Pick(nEp)
 	p.Sub = fmt.Sprintf("%s/%s/%s/hist=%dx%s@b%d", eng, bal, strings.Join(kinds[:nEp], ","), hist, hk, histEp+1)
 	mainAt := 20 * time.Second
@@ -86,8 +93,15 @@ func (propC04) Gen(seed uint64, tier string, idx int) *Plan {
 		switch k {
 		case "refuse":
 			ep.HostMode = []Phase{{From: Always, Mode: "up"}, {From: mainAt - time.Second, Mode: "refuse"}}
+			if tickVariant {
+				ep.HostMode = []Phase{{From: Always, Mode: "up"}, {From: 29*time.Second + 300*time.Millisecond, Mode: "refuse"}}
+			}
 		case "blackhole":
 			ep.HostMode = []Phase{{From: Always, Mode: "up"}, {From: mainAt - time.Second, Mode: "blackhole"}}
+			if tickVariant {
+				// still a candidate when the second main request starts: its connect timeout spans the tick
+				ep.HostMode = []Phase{{From: Always, Mode: "up"}, {From: 27*time.Second + 500*time.Millisecond, Mode: "blackhole"}}
+			}
 		}
 		if i-1 == histEp {
 			for j := 0; j < hist; j++ {
@@ -119,18 +133,29 @@ func (propC04) Gen(seed uint64, tier string, idx int) *Plan {
 		id++
 	}
 	// main ops: sequential; the third lands after the breaker time-out
-	for j, at := range []time.Duration{mainAt, mainAt + 8*time.Second, mainAt + 45*time.Second} {
-		if j > 0 && r.Chance(400) {
+	mainTimes := []time.Duration{mainAt, mainAt + 8*time.Second, mainAt + 45*time.Second}
+	if tickVariant {
+		mainTimes = []time.Duration{mainAt, mainAt + 8*time.Second, mainAt + 16*time.Second, mainAt + 45*time.Second}
+		p.Sub += "/health-tick"
+	}
+	for j, at := range mainTimes {
+		if j > 0 && r.Chance(400) && !tickVariant {
 			continue
 		}
 		body := BodySpec{Kind: "json", N: 200 + r.Pick(3000), Model: "m1", Chunked: r.Chance(300)}
 		if r.Chance(300) {
 			body.Frag = []int{1 + r.Pick(200)}
 		}
+		if tickVariant && j == 1 {
+			// a slow upload of a body the inspector does not read: the request holds its candidate snapshot
+			// from 28 s on, the tick at 29 s finds the endpoints healthy, they go down at 29.3 s, and the
+			// engine dials only when the upload is complete (about 30 s)
+			body = BodySpec{Kind: "raw", N: 4000, CType: "application/octet-stream", Frag: []int{400}, FragDelay: 200 * time.Millisecond}
+		}
 		p.Ops = append(p.Ops, ClientOp{ID: id, At: at, Method: "POST", Path: "/olla/proxy/v1/chat/completions", Query: "q=" + fmt.Sprint(id),
 			Headers: [][2]string{{"X-Custom-Header", fmt.Sprintf("c%d", id)}}, Body: body, Deadline: 20 * time.Second, Expect: "main"})
 		id++
-		if j == 2 && twin {
+		if at == mainAt+45*time.Second && twin {
 			// a second request arrives while the first one after the breaker time-out is still in flight
 			// on a slowly answering endpoint: it must be served too (by that endpoint or by another candidate)
 			p.Ops = append(p.Ops, ClientOp{ID: id, At: at + r.Dur(time.Millisecond, 40*time.Millisecond), Method: "POST", Path: "/olla/proxy/v1/chat/completions", Query: "q=" + fmt.Sprint(id),
